@@ -1430,6 +1430,11 @@ func (c *codegen) Visit(node ast.Node) ast.Visitor {
 					c.inlineCall(f, n)
 					return nil
 				}
+			} else if sel := c.typeInfo.Selections[fun]; sel != nil && sel.Kind() == types.FieldVal {
+				// A struct field of function type, e.g. t.f(x): the value
+				// stored in the field is called.
+				isFuncValue = true
+				isMethod = false
 			} else {
 				typ := c.typeOf(fun)
 				if typ == nil {
